@@ -452,33 +452,7 @@ func runC03(c *kit.Ctx) {
 
 	// ---- R6 ---------------------------------------------------------------
 	c.StartRule("R6", "reader errors are connection failures", 6)
-	var unreg ssa.CallInstruction
-	for _, s := range kit.Calls(recv, unregName) {
-		unreg = s
-	}
-	if unreg == nil {
-		c.Unk(recv, "unregister", recv.Pos(), "receive no longer calls unregisterRPC")
-	} else {
-		kit.Instrs(recv, func(in ssa.Instruction) {
-			r, ok := in.(*ssa.Return)
-			if !ok {
-				return
-			}
-			// returns reachable after a successful claim are the call's business
-			claimed := false
-			for _, f := range kit.FactsAt(r.Block()) {
-				if cmp, ok := kit.CanonCmp(f.Cond, f.Pol); ok && cmp.Op == token.NEQ && kit.IsNilConst(cmp.Y) && kit.Same(cmp.X, unreg.Value()) {
-					claimed = true
-				}
-			}
-			if claimed || r.Block().Comment == "recover" {
-				return
-			}
-			ev := returnedError(r)
-			good := isServerErrorValue(p, ev)
-			c.Check(good, recv, "pre-claim-error", r.Pos(), "error before a call was claimed is a ServerError (fails the connection)", "the reader returns a non-connection-level error (or nil) before any call was claimed: the stream is out of sync but the connection lives on")
-		})
-	}
+	readerErrorsAreFatal(c, recv)
 	// receiveRPCs fails the client on ServerError and stops
 	{
 		good := false
@@ -628,4 +602,39 @@ func sendsErrClosed(s *ssa.Send, g *ssa.Global) bool {
 		}
 	}
 	return false
+}
+
+
+// readerErrorsAreFatal: every return of receive that is reached before a call
+// was claimed from the sent table yields a ServerError (shared by C03.R6 and C18.R6).
+func readerErrorsAreFatal(c *kit.Ctx, recv *ssa.Function) {
+	p := c.P
+	unregName := kit.M("region", "*client", "unregisterRPC")
+	var unreg ssa.CallInstruction
+	for _, s := range kit.Calls(recv, unregName) {
+		unreg = s
+	}
+	if unreg == nil {
+		c.Unk(recv, "unregister", recv.Pos(), "receive no longer calls unregisterRPC")
+		return
+	}
+	kit.Instrs(recv, func(in ssa.Instruction) {
+		r, ok := in.(*ssa.Return)
+		if !ok {
+			return
+		}
+		// returns reachable after a successful claim are the call's business
+		claimed := false
+		for _, f := range kit.FactsAt(r.Block()) {
+			if cmp, ok := kit.CanonCmp(f.Cond, f.Pol); ok && cmp.Op == token.NEQ && kit.IsNilConst(cmp.Y) && kit.Same(cmp.X, unreg.Value()) {
+				claimed = true
+			}
+		}
+		if claimed || r.Block().Comment == "recover" {
+			return
+		}
+		ev := returnedError(r)
+		good := isServerErrorValue(p, ev)
+		c.Check(good, recv, "pre-claim-error", r.Pos(), "error before a call was claimed (read error, timeout, undecodable header, unknown id) is a ServerError: it fails the connection", "the reader returns a non-connection-level error (or nil) before any call was claimed: a read timeout or a broken stream does not fail the connection")
+	})
 }
